@@ -95,7 +95,7 @@ pub fn props_for(family: &str) -> Vec<&'static str> {
         "excl" => vec!["C04"],
         "count" => vec!["C06"],
         "sharedsite" => vec!["C07"],
-        "arms" => vec!["C06"],
+        "arms" => vec!["C06", "C08"],
         _ => vec!["C05", "C04"],
     }
 }
@@ -536,12 +536,12 @@ pub fn execute(sc: &TScenario, sh: &Shared) -> Value {
         let bad = outs.iter().filter(|(_, _, c)| *c != 0).count();
         let what = format!("arm `{}`: times = {} and exactly {} matching call(s) made from {} thread(s)", crate::arms_gen::arm_name(k), sc.n, outs.len(), sc.calls.len());
         if bad > 0 {
-            out_v.push(json!({"tag": "call-within-budget-rejected-under-concurrency", "props": ["C06"], "detail": format!("{what}: {bad} call(s) panicked")}));
+            out_v.push(json!({"tag": "call-within-budget-rejected-under-concurrency", "props": ["C06", "C08"], "detail": format!("{what}: {bad} call(s) panicked")}));
         }
         match exit_verdict.lock().unwrap().clone() {
             Some(Ok(())) => {}
-            Some(Err(msg)) => out_v.push(json!({"tag": "concurrent-accounting-inexact", "props": ["C06"], "detail": format!("{what}; scope exit panicked with {msg:?}")})),
-            None => out_v.push(json!({"tag": "scope-exit-not-reached", "props": ["C06"], "detail": what})),
+            Some(Err(msg)) => out_v.push(json!({"tag": "concurrent-accounting-inexact", "props": ["C06", "C08"], "detail": format!("{what}; scope exit panicked with {msg:?}")})),
+            None => out_v.push(json!({"tag": "scope-exit-not-reached", "props": ["C06", "C08"], "detail": what})),
         }
     }
     let mut faults = serde_json::Map::new();
